@@ -75,6 +75,7 @@ func verbatimStream(r *Run) {
 
 	if r.Shard == 0 {
 		verbatimUnclosedDelimiterFamily(r, run, out)
+		verbatimNeighbourHyphenFamily(r, run, out)
 	}
 	n := 6000
 	if r.Tier == "thorough" {
@@ -228,6 +229,36 @@ func verbatimUnclosedDelimiterFamily(r *Run, run func(src string, env map[string
 		res, cl := run(src, env, "unclosed-delimiter-in-body")
 		if o, ok := out(res); !ok || o != want {
 			r.Violate("C05", rawClause(c.general, c.body, c.end), cl, fmt.Sprintf("want %q got %s", want, res))
+		}
+	}
+}
+
+// verbatimNeighbourHyphenFamily: C05's "a string value printed by an object is emitted exactly" and "the body of a raw
+// block is emitted exactly as written" next to a NEIGHBOUR's hyphen. The white space at the edge of a value or of a raw
+// body is not literal text of the template: the hyphen of the tag before or after it has nothing to strip there. The
+// trim writer works on the output stream, not on the template, and strips it all the same: a genuine deviation, recorded
+// in known_findings.json under these two clauses (K-C05-value-trimmed-by-neighbour-hyphen, K-C05-raw-trimmed-by-
+// neighbour-hyphen) until it is repaired. A control group (the object's OWN hyphens, literal text between) must pass.
+func verbatimNeighbourHyphenFamily(r *Run, run func(src string, env map[string]*V, kind string) (string, string), out func(string) (string, bool)) {
+	env := map[string]*V{"x": VStr("X"), "s": VStr("  s \n"), "b": VBytes(" b "), "d": VDrop(VStr("\td\t")), "e": VStr("")}
+	for _, c := range []struct{ src, want, clause string }{
+		{"{{ x -}}{{ s }}|", "X  s \n|", "string-value-printed-exactly:neighbour-hyphen"},
+		{"|{{ s }}{{- x }}", "|  s \nX", "string-value-printed-exactly:neighbour-hyphen"},
+		{"{% if true -%}{{ b }}{%- endif %}|", " b |", "string-value-printed-exactly:neighbour-hyphen"},
+		{"{% assign q = 1 -%}{{ d }}{%- assign q = 2 %}|", "\td\t|", "string-value-printed-exactly:neighbour-hyphen"},
+		{"{{ x -}}{{ e }}{{ s }}|", "X  s \n|", "string-value-printed-exactly:neighbour-hyphen"},
+		{"{{ x -}}{% raw %}  y {% endraw %}|", "X  y |", "raw-body-emitted-exactly:neighbour-hyphen"},
+		{"|{% raw %} y  {% endraw %}{{- x }}", "| y  X", "raw-body-emitted-exactly:neighbour-hyphen"},
+		{"{% if true -%}{% raw %}\n y{% endraw %}{% endif %}|", "\n y|", "raw-body-emitted-exactly:neighbour-hyphen"},
+		// controls: the object's own hyphens strip the literal text around it, never its value; literal text between a hyphen and a value takes the trim
+		{"[ {{- s -}} ]", "[  s \n]", "string-value-printed-exactly"},
+		{"{{ x -}} a{{ s }}|", "Xa  s \n|", "string-value-printed-exactly"},
+		{"|{{ s }}a {{- x }}", "|  s \naX", "string-value-printed-exactly"},
+		{"[ {%- raw %} y {% endraw -%} ]", "[ y ]", "raw-body-emitted-exactly"},
+	} {
+		res, cl := run(c.src, env, "neighbour-hyphen")
+		if o, ok := out(res); !ok || o != c.want {
+			r.Violate("C05", c.clause, cl, fmt.Sprintf("want %q got %s", c.want, res))
 		}
 	}
 }
